@@ -608,7 +608,8 @@ def fresh_body(ctx, case):
         here = digest(quiet(call, name, fn, args, kwargs))
     finally:
         np.random.set_state(st_np)
-    env = dict(os.environ, PYTHONPATH=VERIF_DIR, VERIF_REPO=REPO_DIR, PYTHONHASHSEED="0", NUMBA_NUM_THREADS="1", OMP_NUM_THREADS="1", MPLBACKEND="Agg")
+    # (its own string-hash salt: results must not depend on which run of the program computes them)
+    env = dict(os.environ, PYTHONPATH=VERIF_DIR, VERIF_REPO=REPO_DIR, PYTHONHASHSEED=str(1 + seed % 4000), NUMBA_NUM_THREADS="1", OMP_NUM_THREADS="1", MPLBACKEND="Agg")
     p = subprocess.run([sys.executable, "-m", "vt.isolated_call", name, variant, str(seed)], capture_output=True, text=True, env=env, cwd=VERIF_DIR, timeout=900)
     if p.returncode != 0:
         raise HarnessError("isolated call of %s failed: %s" % (name, p.stderr[-400:]))
